@@ -6,7 +6,7 @@ Import ListNotations.
 Local Open Scope R_scope.
 
 Definition gnR (id : nat) (w : R) : R := 1.5 + w / 10.       (* any dispersive glass: n depends on w *)
-Definition S (k : gk) (r z : R) (m : medium (O:=ROps)) : surf (O:=ROps) := mkS (O:=ROps) k r 0 z 0 0 0 0 [] m.
+Definition S (k : gk) (r z : R) (m : medium (O:=ROps)) : surf (O:=ROps) := mkS (O:=ROps) k r 0 z 0 0 0 0 [] m [].
 Definition air : medium (O:=ROps) := MIdeal (O:=ROps) 1 0.
 Definition vg := cget (O:=ROps) gnR.
 Definition vs := cset (O:=ROps).
@@ -18,7 +18,7 @@ Definition draw0 (g : unit) (_ : unit) : option (R * unit) := Some (0, g).
     MonteCarlo.run leaves the lens at the last trial (no final reset).
     Witness: singlet, radius of surface 1 perturbed by ScalarSampler(65), one trial. *)
 Definition lA : clens (O:=ROps) := mkL (O:=ROps) [S GPlane 0 (-100) air; S GStd 60 0 (MIdeal (O:=ROps) 1.5 0); S GStd (-60) 5 air; S GPlane 0 95 air] [].
-Definition hA : handle (O:=ROps) := mkH (O:=ROps) HRadius 1 0 0 false.
+Definition hA : handle (O:=ROps) := mkH (O:=ROps) HRadius 1 0 0 false 0.
 Theorem montecarlo_ends_nominal_refuted :
   match mc_run (O:=ROps) vg vs up (fun _ => []) draw0
                (map (mkvar vg lA) [hA]) [] [[]] (mkSt lA [SScalar (O:=ROps) unit 65] tt) with
@@ -36,10 +36,10 @@ Definition lB : clens (O:=ROps) := mkL (O:=ROps) [S GPlane 0 (-100) air; S GPlan
 
 (** D23: an index perturbation on a catalogue glass is reset to a dispersion-free IdealMaterial. *)
 Definition lC : clens (O:=ROps) := mkL (O:=ROps) [S GPlane 0 (-100) air; S GStd 60 0 (MGlass (O:=ROps) 0); S GStd (-60) 5 air; S GPlane 0 95 air] [].
-Definition hC : handle (O:=ROps) := mkH (O:=ROps) HIndex 1 0 (55 / 100) false.
+Definition hC : handle (O:=ROps) := mkH (O:=ROps) HIndex 1 0 (55 / 100) false 0.
 Theorem reset_index_material_refuted :
   let l' := treset vs up (map (mkvar vg lC) [hC]) [] lC in
-  l' <> lC /\ vg l' (mkH (O:=ROps) HIndex 1 0 (45 / 100) false) <> vg lC (mkH (O:=ROps) HIndex 1 0 (45 / 100) false).
+  l' <> lC /\ vg l' (mkH (O:=ROps) HIndex 1 0 (45 / 100) false 0) <> vg lC (mkH (O:=ROps) HIndex 1 0 (45 / 100) false 0).
 Proof.
   split.
   - intro Heq. norm Heq. discriminate Heq.
@@ -50,7 +50,7 @@ Qed.
     [treset] follows.  The former witness (radius(2) := -1 * radius(1); radius(1) perturbed to 65; one evaluation of the
     compensator) now ends at the nominal lens: *)
 Definition lD : clens (O:=ROps) := mkL (O:=ROps) (surfs lA) [mkP (O:=ROps) 1 PRadius 2 (-1) 0].
-Definition hD : handle (O:=ROps) := mkH (O:=ROps) HConic 2 0 0 true.
+Definition hD : handle (O:=ROps) := mkH (O:=ROps) HConic 2 0 0 true 0.
 Example sensitivity_ends_nominal_pickup_witness_now_nominal :
   match sens_run (O:=ROps) vg vs up (fun _ => []) draw0
                  (map (mkvar vg lD) [hA]) (map (mkvar vg lD) [hD]) [[[0]]]
